@@ -24,12 +24,14 @@ pub assume_specification [str::repeat] (s: &str, n: usize) -> (r: String)
 pub open spec fn d1(a: u8) -> Seq<u8> { seq![a] }
 pub open spec fn d2(a: u8, b: u8) -> Seq<u8> { seq![a, b] }
 pub open spec fn d3(a: u8, b: u8, c: u8) -> Seq<u8> { seq![a, b, c] }
+pub open spec fn d4(a: u8, b: u8, c: u8, d: u8) -> Seq<u8> { seq![a, b, c, d] }
 pub open spec fn vx_is_digit(c: u8) -> bool { 48u8 <= c && c <= 57u8 }
 pub open spec fn vx_all_digits(s: Seq<u8>) -> bool { forall|i: int| 0 <= i < s.len() ==> vx_is_digit(#[trigger] s[i]) }
 pub fn vx_bytes1(a: u8) -> (r: [u8; 1]) ensures r@ == d1(a), vx_is_digit(a) ==> vx_all_digits(r@) { proof { reveal(vx_all_digits); reveal(d1); } let r = [a]; assert(r@ =~= seq![a]); r }
 pub fn vx_bytes2(a: u8, b: u8) -> (r: [u8; 2]) ensures r@ == d2(a, b), (vx_is_digit(a) && vx_is_digit(b)) ==> vx_all_digits(r@) { proof { reveal(vx_all_digits); reveal(d2); } let r = [a, b]; assert(r@ =~= seq![a, b]); r }
 pub fn vx_bytes3(a: u8, b: u8, c: u8) -> (r: [u8; 3]) ensures r@ == d3(a, b, c), (vx_is_digit(a) && vx_is_digit(b) && vx_is_digit(c)) ==> vx_all_digits(r@) { proof { reveal(vx_all_digits); reveal(d3); } let r = [a, b, c]; assert(r@ =~= seq![a, b, c]); r }
 
+pub fn vx_bytes4(a: u8, b: u8, c: u8, d: u8) -> (r: [u8; 4]) ensures r@ == d4(a, b, c, d), (vx_is_digit(a) && vx_is_digit(b) && vx_is_digit(c) && vx_is_digit(d)) ==> vx_all_digits(r@) { proof { reveal(vx_all_digits); reveal(d4); } let r = [a, b, c, d]; assert(r@ =~= seq![a, b, c, d]); r }
 /// lexicographic order on byte strings (the `Ord` of slices)
 pub open spec fn lex_lt(a: Seq<u8>, b: Seq<u8>) -> bool decreases a.len() {
     if b.len() == 0 { false } else if a.len() == 0 { true } else if a[0] < b[0] { true } else if a[0] > b[0] { false }
@@ -38,9 +40,13 @@ pub open spec fn lex_lt(a: Seq<u8>, b: Seq<u8>) -> bool decreases a.len() {
 /// rule R4c: `a < b` on byte slices (TRUSTED: std's slice ordering is lexicographic)
 #[verifier::external_body] pub fn vx_lt_bytes(a: &[u8], b: &[u8]) -> (r: bool) ensures r == lex_lt(a@, b@) { a < b }
 
+/// rule R24: `==` between a str and a str literal (ASSUMED: str equality is equality of the character sequences,
+/// which is also what vstd states for `str`; the helper avoids vstd's generic PartialEq axioms, which are costly in long chains)
+#[verifier::external_body] pub fn vx_eq_str(a: &str, b: &str) -> (r: bool) ensures r == (a@ == b@) { a == b }
+
 /// verified helper used by rule R4b (comparison of a byte slice with a byte-string literal)
 pub fn vx_eq_bytes(a: &[u8], b: &[u8]) -> (r: bool)
-    ensures r == (a@ =~= b@)
+    ensures r == (a@ == b@)
 {
     if a.len() != b.len() { return false; }
     let mut i: usize = 0;
@@ -52,6 +58,7 @@ pub fn vx_eq_bytes(a: &[u8], b: &[u8]) -> (r: bool)
         if a[i] != b[i] { return false; }
         i += 1;
     }
+    assert(a@ =~= b@);
     true
 }
 
